@@ -42,6 +42,28 @@ var c13StmtFrags = []struct{ name, text string }{
 	{"illegal character #", "a = #;"},
 	{"illegal character ^", "a = 1 ^ 2;"},
 	{"illegal character backtick", "a = `x`;"},
+	{"illegal character backslash", "a = 1 \\ + 2;"},
+	{"illegal character NUL between tokens", "a = 1 \x00 + 2;"},
+	{"illegal character NUL between statements", "a = 1;\x00 b = 2;"},
+	{"illegal character NUL in a comment", "a = 1; // c\x00 \n b = 2;"},
+	{"illegal character SOH", "a = 1 \x01 + 2;"},
+	{"illegal character vertical tab", "a = 1 \x0b + 2;"},
+	{"illegal character form feed", "a = 1 \x0c + 2;"},
+	{"illegal character ESC", "a = 1 \x1b + 2;"},
+	{"illegal character DEL", "a = 1 \x7f + 2;"},
+	{"illegal character NEL", "a = 1 \u0085 + 2;"},
+	{"illegal character no-break space", "a = 1 \u00a0 + 2;"},
+	{"illegal character soft hyphen", "a = 1 \u00ad + 2;"},
+	{"illegal character ogham space", "a = 1 \u1680 + 2;"},
+	{"illegal character em space", "a = 1 \u2003 + 2;"},
+	{"illegal character zero width space", "a = 1 \u200b + 2;"},
+	{"illegal character line separator", "a = 1; \u2028 b = 2;"},
+	{"illegal character paragraph separator", "a = 1; \u2029 b = 2;"},
+	{"illegal character narrow no-break space", "a = 1 \u202f + 2;"},
+	{"illegal character ideographic space", "a = 1 \u3000 + 2;"},
+	{"illegal character byte order mark", "a = 1; \ufeff b = 2;"},
+	{"illegal character replacement character", "a = 1 \ufffd + 2;"},
+	{"illegal byte 0xff", "a = 1 \xff + 2;"},
 	{"single ampersand", "a = b & c;"},
 	{"single pipe", "a = b | c;"},
 	{"lone tilde", "a = ~b;"},
